@@ -179,7 +179,16 @@ def build_harness(name, race=False):
     hd = os.path.join(ROOT, "harness")
     shutil.copyfile(os.path.join(REPO, "go.sum"), os.path.join(hd, "go.sum"))
     out = os.path.join(BUILD, "h_" + name + ("_race" if race else ""))
-    cmd = [GO, "build", "-tags", "verif"] + (["-race"] if race else []) + ["-o", out, "./cmd/" + name]
+    modfile = []
+    if os.path.realpath(REPO) != "/repo":
+        # development aid (bin/vmut): build against a scratch copy of the repository
+        alt = os.path.join(BUILD, "altmod")
+        os.makedirs(alt, exist_ok=True)
+        gm = open(os.path.join(hd, "go.mod")).read().replace("=> /repo", "=> " + os.path.realpath(REPO))
+        open(os.path.join(alt, "go.mod"), "w").write(gm)
+        shutil.copyfile(os.path.join(REPO, "go.sum"), os.path.join(alt, "go.sum"))
+        modfile = ["-modfile=" + os.path.join(alt, "go.mod")]
+    cmd = [GO, "build", "-tags", "verif"] + modfile + (["-race"] if race else []) + ["-o", out, "./cmd/" + name]
     rc, log = sh(cmd, cwd=hd, env=GOENV, timeout=1200)
     return rc == 0, log
 
